@@ -371,6 +371,60 @@ static void modeHist(const Case& c)
 
 
 // ------------------------------------------------------------------------------------------
+// C20: any option combination through the public API; the statistics are read the way a user reads them
+// ------------------------------------------------------------------------------------------
+static void modeOpt(const Case& c)
+{
+    Cfg k                = Cfg::fromCase(c);
+    const std::string id = c.str("id", "case");
+    std::ostringstream os;
+    os << "RES id=" << id << " ";
+    try {
+        auto s = makeSolver(k);
+        s->setup();
+        if (c.has("stackfill"))
+            dirtyStack(c.i("stackfill"));
+        s->solve();
+        if (c.has("stackfill"))
+            dirtyStack(255 - c.i("stackfill"));
+        const int its    = s->numberOfIterations();
+        const double rho = s->meanResidualReductionFactor();
+        double e2 = -1, einf = -1;
+        int haveErr = 0;
+        if (k.exact) {
+            auto a = s->exactErrorWeightedEuclidean();
+            auto b = s->exactErrorInfinity();
+            if (a.has_value() && b.has_value()) {
+                e2      = a.value();
+                einf    = b.value();
+                haveErr = 1;
+            }
+        }
+        const auto& u = s->solution();
+        bool finite   = true;
+        for (int i = 0; i < u.size(); i++)
+            if (!std::isfinite(u[i]))
+                finite = false;
+        os << "status=ok its=" << its << " rho=" << hexd(rho) << " rhod=" << dec(rho) << " haveerr=" << haveErr << " e2=" << hexd(e2)
+           << " einf=" << hexd(einf) << " sol=" << hashVec(u) << " finite=" << finite << " nr=" << s->grid().nr()
+           << " nt=" << s->grid().ntheta() << " levels=" << s->number_of_levels_;
+        if (k.exact) {
+            auto ee = exactErrors(*s, k, u);
+            os << " he2=" << dec(ee.first) << " heinf=" << dec(ee.second) << " e2d=" << dec(e2);
+        }
+    }
+    catch (const std::exception& e) {
+        std::string w = e.what();
+        for (auto& ch : w)
+            if (ch == ' ' || ch == '\n')
+                ch = '_';
+        os << "status=exception what=" << w;
+    }
+    fprintf(g_out, "%s\n", os.str().c_str());
+    fflush(g_out);
+}
+
+// ------------------------------------------------------------------------------------------
 // C10: one multigrid cycle, called directly (private cycle functions reached with -fno-access-control)
 // ------------------------------------------------------------------------------------------
 static bool denseSolve(std::vector<double>& M, std::vector<double>& b, int n)
@@ -643,6 +697,8 @@ int main(int argc, char** argv)
             modeHist(c);
         else if (mode == "cycle")
             modeCycle(c);
+        else if (mode == "opt")
+            modeOpt(c);
     }
     fclose(g_out);
     return 0;
